@@ -99,8 +99,48 @@ let cmd_builder () =
        | M.BPanic -> print_endline "PANIC")
     | _ -> print_endline "BADCASE")
 
+(* ---- canonical printing of values and parser results (same syntax as harness/src/dump.rs) ---- *)
+let string_of_coq_string (s : M.string) : string =
+  let b = Buffer.create 16 in
+  let rec go = function
+    | M.EmptyString -> ()
+    | M.String (a, r) -> Buffer.add_char b (Char.chr (int_of_n (M.n_of_ascii a))); go r in
+  go s; Buffer.contents b
+
+let rec show_val (b : Buffer.t) (v : M.val0) : unit =
+  match v with
+  | M.VUnit -> Buffer.add_string b "()"
+  | M.VBytes l -> Buffer.add_char b 'x'; List.iter (fun c -> Buffer.add_string b (Printf.sprintf "%02x" ((int_of_n c) land 255))) l
+  | M.VNum n -> Buffer.add_string b (decimal_of_n n)
+  | M.VBool t -> Buffer.add_string b (if t then "true" else "false")
+  | M.VNone -> Buffer.add_string b "None"
+  | M.VSome x -> Buffer.add_string b "(Some "; show_val b x; Buffer.add_char b ')'
+  | M.VList l -> Buffer.add_char b '['; List.iteri (fun i x -> if i > 0 then Buffer.add_char b ' '; show_val b x) l; Buffer.add_char b ']'
+  | M.VTuple l -> Buffer.add_string b "(T"; List.iter (fun x -> Buffer.add_char b ' '; show_val b x) l; Buffer.add_char b ')'
+  | M.VCon (n, l) -> Buffer.add_char b '('; Buffer.add_string b (string_of_coq_string n);
+    List.iter (fun x -> Buffer.add_char b ' '; show_val b x) l; Buffer.add_char b ')'
+  | M.VRec (n, fs) ->
+    let fs = List.map (fun (f, x) -> (string_of_coq_string f, x)) fs in
+    let fs = List.sort (fun (a, _) (c, _) -> compare a c) fs in
+    Buffer.add_char b '{'; Buffer.add_string b (string_of_coq_string n);
+    List.iter (fun (f, x) -> Buffer.add_char b ' '; Buffer.add_string b f; Buffer.add_char b '='; show_val b x) fs;
+    Buffer.add_char b '}'
+
+let show_res (r : M.res) : string =
+  match r with
+  | M.ROk (_, v, u) -> let b = Buffer.create 256 in
+    Buffer.add_string b "OK "; Buffer.add_string b (decimal_of_n u); Buffer.add_char b ' '; show_val b v; Buffer.contents b
+  | M.RInc -> "INC" | M.RErr -> "ERR" | M.RFail -> "FAIL" | M.RPanic -> "PANIC" | M.RFuel -> "FUEL"
+
+(* ---- parse: "<hex input>" -> canonical result ---- *)
+let cmd_parse () =
+  iter_lines (fun line ->
+    let inp = bytes_of_string (unhex line) in
+    print_endline (show_res (M.parse inp)))
+
 let () =
   match Sys.argv.(1) with
+  | "parse" -> cmd_parse ()
   | "builder" -> cmd_builder ()
   | "bodystruct" -> cmd_bodystruct ()
   | "tags" -> cmd_tags ()
